@@ -4,7 +4,7 @@ from symx.runner import Ob
 ID = "C17"
 MG = "breezy.merge"
 FUNCTIONS = [MG + ":Merge3Merger._merge_names", MG + ":Merge3Merger._merge_executable", MG + ":Merge3Merger._three_way",
-             MG + ":_path_dirname"]
+             MG + ":_path_dirname", MG + ":Merge3Merger._compute_transform"]
 STUBS = ["trees and TreeTransform are recording stubs (adjust_path / set_executability / final_kind, _parent_trans_id)",
          "names and parents of the three trees are SYMBOLIC comparators (integers standing for names / directory ids: "
          "_merge_names only compares them); the per-tree paths are fixed strings"]
@@ -113,10 +113,110 @@ def ob_executable(cx):
     cx.observe("execs", list(m.tt.execs))
 
 
+def ob_entry_loop(cx):
+    """_compute_transform: the per-entry decisions of one entry depend on that entry alone.  The entry iterator yields a
+    symbolic sequence of entries (changed or not, copied or not, content status symbolic); the name / content / executable
+    steps are recording stand-ins; each entry's executable step must see the content status of THAT entry ('unmodified'
+    when its content did not change), whatever the entries before it were."""
+    M = cx.mod(MG)
+    T = cx.truth
+    n = cx.choose("nentries", 1, cx.p("nentries"))
+    entries, want = [], []
+    for i in range(n):
+        changed = cx.bool("changed%d" % i)
+        copied = cx.bool("copied%d" % i)
+        status = cx.int("status%d" % i, 0, 3)
+        paths3 = ("b%d" % i, "o%d" % i, "t%d" % i)
+        entries.append((b"id-%d" % i, changed, paths3, (1, 2, 3), ("b", "o", "t"), (False, True, False), copied))
+        want.append((changed, copied, status))
+    STATUS = ["unmodified", "modified", "deleted", "conflicted"]
+    calls = []
+
+    class TT:
+        @staticmethod
+        def trans_id_file_id(fid):
+            return "tid-" + fid.decode()
+
+        @staticmethod
+        def trans_id_tree_path(p):
+            return "tid-" + p
+
+        @staticmethod
+        def assign_id():
+            return "tid-new"
+
+        @staticmethod
+        def fixup_new_roots():
+            calls.append(("fixup",))
+
+    class PB:
+        def __enter__(self):
+            return self
+
+        def __exit__(self, *a):
+            return False
+
+        def update(self, *a):
+            pass
+
+    class UI:
+        class ui_factory:
+            nested_progress_bar = staticmethod(lambda: PB())
+    M.ui = UI
+    m = object.__new__(M.Merge3Merger)
+    m._lca_trees = None
+    m.this_tree = _Tree("this")
+    m.this_tree.supports_file_ids = True
+    m.tt = TT
+    m._entries3 = lambda: iter(entries)
+    m._merge_names = lambda trans_id, paths3, parents3, names3, resolver: calls.append(("names", trans_id, paths3))
+
+    def contents(paths3, trans_id):
+        k = int(trans_id[len("tid-id-"):])
+        calls.append(("contents", trans_id, paths3))
+        s = want[k][2]
+        return STATUS[0 if T(s == 0) else 1 if T(s == 1) else 2 if T(s == 2) else 3]
+    m._do_merge_contents = contents
+    m._merge_executable = lambda paths3, trans_id, executable3, file_status, resolver: calls.append(
+        ("exec", trans_id, paths3, executable3, file_status))
+    m._finish_computing_transform = lambda: calls.append(("finish",))
+    M.Merger.hooks = {"merge_file_content": []}          # no per-file merge hooks (plugins)
+    m._compute_transform()
+    pos = 0
+    for i in range(n):
+        changed, copied, status = want[i]
+        tid = "tid-id-%d" % i
+        is_copy = T(copied)
+        p3 = (None, "o%d" % i, None) if is_copy else ("b%d" % i, "o%d" % i, "t%d" % i)
+        cx.require(calls[pos] == ("names", tid, p3), "entry %d: name step missing or out of order: %r" % (i, calls[pos]))
+        pos += 1
+        if is_copy or T(changed):
+            cx.require(calls[pos] == ("contents", tid, p3), "entry %d: content step missing: %r" % (i, calls[pos]))
+            pos += 1
+            st = STATUS[0 if T(status == 0) else 1 if T(status == 1) else 2 if T(status == 2) else 3]
+            cx.cover("content_merged")
+        else:
+            st = "unmodified"
+            if i > 0:
+                cx.cover("unchanged_after_other_entry")
+        c = calls[pos]
+        cx.require(c[0] == "exec" and c[1] == tid and c[2] == p3, "entry %d: executable step missing or out of order: %r" % (i, c))
+        cx.require(c[4] == st, "entry %d: the executable-bit step was told the content is %r, this entry's content is %r" %
+                   (i, c[4], st))
+        cx.require(c[3] == ((None, True, None) if is_copy else (False, True, False)), "entry %d: wrong executable triple" % i)
+        pos += 1
+    cx.require(calls[pos:] == [("fixup",), ("finish",)], "unexpected steps after the last entry: %r" % (calls[pos:],))
+    cx.observe("steps", [c[0] for c in calls])
+
+
 def obligations(tier):
     q = tier == "quick"
     to = 900 if q else 3600
     return [
+        Ob("entry_loop", ob_entry_loop, [MG], dict(nentries=2 if q else 3), to, 1,
+           ["content_merged", "unchanged_after_other_entry"],
+           bounds="<= %d entries, each changed / unchanged / copied with content status unmodified / modified / deleted / "
+                  "conflicted (symbolic)" % (2 if q else 3)),
         Ob("merge_names", ob_names, [MG], {}, to, 1, ["conflict", "other_unchanged", "this_unchanged", "union"],
            bounds="name and directory of the entry in BASE / OTHER / THIS: six symbolic comparators (4 values each, enough for "
                   "every equality pattern of three values)"),
